@@ -86,7 +86,8 @@ func (x *Exec) debugRef(fr *frame, st *State, d *ssa.DebugRef) {
 	if obj == nil {
 		return
 	}
-	if _, isVar := obj.(*types.Var); !isVar {
+	if tv, isVar := obj.(*types.Var); !isVar || tv.IsField() {
+		// only variables are named; a field selector (x.f) must not shadow a variable called f
 		return
 	}
 	v, has := st.env[d.X]
